@@ -7,4 +7,6 @@ EXPORTS = ["balloon", "balloon/hyper"]
 CHECKS = {
     "C01": {"pkg": "verifx/c01", "run": "TestC01", "harness": EXPORTS, "level": "exploration"},
     "C04": {"pkg": "verifx/c01", "run": "TestC04", "harness": EXPORTS, "level": "exploration"},
+    "C02": {"pkg": "verifx/c02", "run": "TestC02", "harness": EXPORTS, "level": "exploration"},
+    "C03": {"pkg": "verifx/c03", "run": "TestC03", "harness": EXPORTS, "level": "exploration"},
 }
